@@ -73,6 +73,7 @@ def run(prog, res):
   res.floor('W3', 2)
   from . import _c07_pairs
   _c07_pairs.run(prog, res)
+  _c07_pairs.run_bound_factor(prog, res)
 
 
 def _target_of(fn, call):
